@@ -532,6 +532,23 @@ fn probes(ctx: &Ctx) {
             ctx.violation(sig, format!("expected {:?}, observed {:?}", exp, out.brief()), json!({"source": src, "observed": out.brief()}));
         }
     }
+    // a label on the `.org` line itself: the item that follows it lands at the new origin, and that is its value
+    for (name, src, at, want) in [
+        ("cseg", "\tnop\nlab: .org 0x4\n\tnop\n\t.dw lab\n", 10usize, 4u16),
+        ("cseg-other-case-and-forward", "\t.dw LAB\n\tnop\nlab:\t.ORG 6\n\tnop\n".replace(".ORG", ".org").leak() as &str, 0, 6),
+        ("eseg", ".eseg\n\t.db 1\ne: .org 5\n\t.db 2\n.cseg\n\t.dw e\n", 0, 5),
+        ("dseg", ".dseg\n\t.byte 3\nd: .org 0x70\n\t.byte 1\n.cseg\n\t.dw d\n", 0, 0x70),
+        ("in-macro-body", ".macro place\n\tnop\n@0: .org @1\n\tnop\n.endm\n\tplace here, 8\n\t.dw here\n", 18, 8),
+        ("behind-an-empty-origin", ".org 2\nlab: .org 9\n\tnop\n\t.dw lab\n", 20, 9),
+    ] {
+        let out = fw::build_str(src);
+        ctx.eval(1);
+        ctx.count("label_on_org_line_probes", 1);
+        let ok = matches!(&out, Outcome::Ok(b) if b.code.get(at..at + 2) == Some(&want.to_le_bytes()[..]));
+        if !ok {
+            ctx.violation(format!("layout/label-on-org-line/{}", name), format!("the label on the `.org` line should be 0x{:x}, where the next item lands: {}", want, fw::clip(&format!("{:?}", out.brief()), 160)), json!({"source": src, "label_on_org_line": true, "at": at, "want": want, "observed": out.brief()}));
+        }
+    }
     // `.org N` immediately followed by a segment switch must not leak N into the other segment
     let src = ".dseg\n.org 0x100\n.cseg\nldi r16, 1\n";
     let out = fw::build_str(src);
@@ -587,6 +604,17 @@ pub fn skeleton_hash(nodes: &[Node]) -> u64 {
 pub fn replay(ctx: &Ctx, case: &Value) -> i32 {
     if case.get("variant").is_some() {
         return crate::props::variants::replay(ctx, case);
+    }
+    if case["label_on_org_line"].as_bool() == Some(true) {
+        let out = fw::build_str(case["source"].as_str().unwrap_or(""));
+        ctx.eval(1);
+        ctx.distinct(1);
+        ctx.distinct(2);
+        let (at, want) = (case["at"].as_u64().unwrap_or(0) as usize, case["want"].as_u64().unwrap_or(0) as u16);
+        if !matches!(&out, Outcome::Ok(b) if b.code.get(at..at + 2) == Some(&want.to_le_bytes()[..])) {
+            ctx.violation("layout/replay", "the label on the .org line still has another value", case.clone());
+        }
+        return fw::finish(ctx, "replay", &[]);
     }
     // the stored program text is re-built and compared with the stored reference images
     let src = case["source"].as_str().unwrap_or("");
